@@ -247,6 +247,11 @@ def rules(rep, m):
             rep.sample({"rule": "R-C10-4", "function": f.name, "array": lc, "count": count})
             good = re.search(r"->cursize$", count) is not None or re.fullmatch(r"\d+", count) is not None
             if not good:
+                # the count is the very value this function stores as the new capacity
+                caps = {cx.canon(r2_) for l2_, r2_, k2_, n2_ in inv.stores(f)
+                        if r2_ is not None and k2_ == "=" and cx.canon(l2_).endswith("->cursize")}
+                good = count in caps
+            if not good:
                 rep.finding(r4, f.name, "sibling-size:" + mm.group(1), "%s allocates %s with %s elements; the arrays are indexed "
                             "up to the capacity (cursize), so a later append can write past it" % (f.name, lc, count),
                             where=m.rel(loc(n_)))
